@@ -23,6 +23,10 @@ def run(repo, run, tier):
     in_step_test(repo, run, m)
     attributes_and_kinds(repo, run)
     sentinel(repo, run, m)
+    # 'within tolerance level of a true root', 'lies inside the step in which it was found': a reported root is one the search CERTIFIED by a sign change
+    # (or an exact zero); a success decided by comparing |g| with the abscissa tolerance reports end points of steps that contain no crossing
+    from .c08 import dim_rule
+    dim_rule(repo, run, "C07.8", ["brentsrootvec"], floor=6)
 
 
 def _event_loop(m):
@@ -69,8 +73,8 @@ def record(repo, run, m):
         run.report("C07.1", DS, apps[0] if apps else loop, "an event is recorded without passing the in-step (true_positive) test")
 
 
-def index_sorts(repo, run, m):
-    rid = run.rule("C07.2", "index sorts: last_occurrence is indexed by EVENT index; the enumerate variable of the event loop is a POSITION among the events "
+def index_sorts(repo, run, m, rule_id="C07.2"):
+    rid = run.rule(rule_id, "index sorts: last_occurrence is indexed by EVENT index; the enumerate variable of the event loop is a POSITION among the events "
                             "active in this step; positions map to event indices through active_events[position]", floor=3)
     loop, act, roots, evs, pos, root, ev = _event_loop(m)
     # name of last_occurrence: slot 3 of prepare_events result
@@ -87,14 +91,14 @@ def index_sorts(repo, run, m):
     alloc_ok = any(isinstance(st, ast.Assign) and src(st.targets[0]) == "last_occurrence" and "len(events)" in cpe.text(st.value) for st in ast.walk(pe))
     run.judged(rid, "last_occurrence allocated with len(events) entries (one per event)", ok=alloc_ok)
     if not alloc_ok:
-        run.report("C07.2", DS, pe, "last_occurrence is not allocated per event", text="last_occurrence allocation")
+        run.report(rule_id, DS, pe, "last_occurrence is not allocated per event", text="last_occurrence allocation")
     n = 0
     for sub in [x for x in ast.walk(loop) if isinstance(x, ast.Subscript) and isinstance(x.value, ast.Name) and x.value.id == lo]:
         idx = sub.slice
         n += 1
         if isinstance(idx, ast.Name) and idx.id == pos:
             run.judged(rid, "%s" % src(sub), ok=False)
-            run.report("C07.2", DS, sub, "last_occurrence (one entry per EVENT) is indexed with `%s`, the position among the events active in this step: with several events "
+            run.report(rule_id, DS, sub, "last_occurrence (one entry per EVENT) is indexed with `%s`, the position among the events active in this step: with several events "
                                          "the duplicate test of one event reads the record of another (a crossing is reported twice or dropped)" % pos)
         elif isinstance(idx, ast.Subscript) and isinstance(idx.value, ast.Name) and idx.value.id == act and isinstance(idx.slice, ast.Name) and idx.slice.id == pos:
             run.judged(rid, "%s" % src(sub), ok=True)
@@ -102,6 +106,18 @@ def index_sorts(repo, run, m):
             run.judged(rid, "%s (index sort not definite)" % src(sub), nontrivial=False)
     if n == 0:
         raise AnalysisError("anchor missing: uses of last_occurrence in the event loop")
+    # the duplicate test of an event looks at THAT event's latest record: the record list is addressed only through the per-event table
+    env = inline_locals(m.fn)
+    for sub in [x for x in ast.walk(loop) if isinstance(x, ast.Subscript) and is_self_attr(x.value, "__events") and isinstance(x.ctx, ast.Load)]:
+        idx = sub.slice
+        while isinstance(idx, ast.Name) and idx.id in env:
+            idx = env[idx.id]
+        ok = isinstance(idx, ast.Subscript) and isinstance(idx.value, ast.Name) and idx.value.id == lo
+        run.judged(rid, "recorded events read at %s" % src(idx)[:60], ok=ok)
+        if not ok:
+            run.report(rule_id, DS, sub, "the list of recorded events is read at `%s`, not at last_occurrence[<event index>]: the duplicate test of one event then looks at "
+                                         "the record of whichever event was stored there (with several events whose crossings coincide, later crossings are dropped or "
+                                         "reported twice)" % src(idx)[:60])
 
 
 # ------------------------------------------------------------------------------------------------
